@@ -117,6 +117,26 @@ func (e *Engine) lemmaObligations(lm *Lemma) (obls []*Obligation, err error) {
 		ih := Forall(bvs, Implies(And(Eq(vals2[lm.Induction].T, Sub(iv.T, IntLit(1))), req2), ens2))
 		hyps = append(hyps, ih)
 	}
+	for _, un := range lm.Uses {
+		ul := e.lemmas[un]
+		if ul == nil {
+			return nil, fmt.Errorf("lemma %s: unknown lemma %s", lm.Name, un)
+		}
+		// only lemmas declared earlier may be used (no circular proofs)
+		before := false
+		for _, n := range e.lemmaOrder {
+			if n == un {
+				before = true
+			}
+			if n == lm.Name {
+				break
+			}
+		}
+		if !before {
+			return nil, fmt.Errorf("lemma %s: lemma %s must be declared before it is used", lm.Name, un)
+		}
+		hyps = append(hyps, x.lemmaQuantified(ul))
+	}
 	for i, part := range splitGoal(ens) {
 		name := fmt.Sprintf("lemma.%s#%d", lm.Name, i+1)
 		obls = append(obls, &Obligation{Name: name, Func: "lemma." + lm.Name, Kind: "lemma", Hyps: hyps, Goal: part, X: x,
